@@ -1,5 +1,6 @@
 import CogentModel.Model.AnnotDbHist
 import CogentModel.Proofs.AnnotDb
+import CogentModel.Proofs.AnnotDbRoundTrip
 /-! Helper lemmas for whole operation histories (`Model/AnnotDbHist.lean`): the register invariant and its
 preservation by every call. -/
 namespace CogentModel.AnnotDb
@@ -212,6 +213,16 @@ theorem step_inv (ok : ClausesOk) (dbs dbs' : List Db) (ms : List (List Rec)) (o
       simp only [hd] at hs
       cases hs
       exact h.append (h.2 i d hd)
+  | copyJson i =>
+    simp only [stepOp] at hs
+    cases hd : dbs[i]? with
+    | none => simp [hd] at hs
+    | some d =>
+      simp only [hd] at hs
+      cases hs
+      obtain ⟨h1, h2, h3⟩ := h.2 i d hd
+      obtain ⟨w, _, p⟩ := jsonRoundTrip_memory_perm d h1
+      exact h.append ⟨w, p.trans h2, h3⟩
 
 theorem history_inv (ok : ClausesOk) (ops : List Op) : ∀ (dbs dbs' : List Db) (ms : List (List Rec)), Inv dbs ms →
     (∀ op ∈ ops, op.ok) → runHistory dbs ops = .ok dbs' → Inv dbs' (specHistory ms ops) := by
